@@ -3,7 +3,7 @@ CONSTANTS
   Clients = {1, 2, 3}
   Ids = {1, 2}
   MaxData = 1
-  MaxHist = 8
+  MaxHist = 6
   RegWhileClaimed = "refuse"
 INVARIANTS ReachAll
 VIEW ViewObs
